@@ -5,3 +5,6 @@ import SuppModel.Props.C11
 #print axioms SuppModel.Props.C11.C11_found_iff
 #print axioms SuppModel.Props.C11.C11_first
 #print axioms SuppModel.Props.C11.C11_same
+#print axioms SuppModel.Props.C11.C11_mark_shift
+#print axioms SuppModel.Props.C11.C11_mark_text
+#print axioms SuppModel.Props.C11.C11_location_unmoved
